@@ -29,6 +29,12 @@ def remove (p : Path) (fs : FS) : FS := fun q => if p <+: q then none else fs q
 
 def mkdir (p : Path) (fs : FS) : FS := fun q => if q <+: p then none else fs q
 
+/-- graft: the whole file system `sub` is put at `p` as a directory (`upsert` of kind Tree with the id
+of a stored tree); whatever was at, below or on the way to `p` is gone -/
+def graft (p : Path) (sub : FS) (fs : FS) : FS := fun q =>
+  if p <+: q then (if q = p then none else sub (q.drop p.length))
+  else if q <+: p then none else fs q
+
 /-- restriction to what lies below `p` (the view of a cursor at `p`) -/
 def below (p : Path) (fs : FS) : FS := fun q => fs (p ++ q)
 
